@@ -1,0 +1,120 @@
+//go:build verif
+
+package forwarder
+
+// Machine-checked contracts (comment-only; read by /verif/engine, never compiled into the binary).
+// Generated in part by /verif/tools (Driver interface: assumed semantics of the data plane).
+
+// Ghost model of the data plane (DESIGN.md section 4): DP = rules present, CREATED = rules for which a Create call
+// reached the data plane during the life of the owning session.  Updated only by these Driver contracts.
+// kinds: 1 PDR, 2 FAR, 3 QER, 4 URR, 5 BAR
+//@ type RuleKey (seid uint64, kind uint8, id uint64)
+//@ ghost DP set[RuleKey]
+//@ ghost CREATED set[RuleKey]
+
+// idPDR: the PDR id of a Create/Update PDR IE as both the session layer and the driver compute it
+// (last decodable PDR-ID child).  The agreement of the two computations is entry assumption A-PDRID.
+//@ ufunc pdrIdOf(*ie.IE) uint16
+
+//@ func (d Driver) CreatePDR(seid uint64, req *ie.IE) (err error)
+//@   requires req != nil
+//@   ensures [sup] forall k RuleKey :: k in old(DP) ==> k in DP
+//@   ensures [sub] forall k RuleKey :: k in DP ==> k in old(DP) || k == RuleKey(seid, 1, uint64(pdrIdOf(req)))
+//@   ensures [ok]  err == nil ==> RuleKey(seid, 1, uint64(pdrIdOf(req))) in DP
+//@   ensures [created] CREATED == add(old(CREATED), RuleKey(seid, 1, uint64(pdrIdOf(req))))
+//@   modifies DP, CREATED
+
+//@ func (d Driver) UpdatePDR(seid uint64, req *ie.IE) (err error)
+//@   requires req != nil
+//@   requires [made] RuleKey(seid, 1, uint64(pdrIdOf(req))) in CREATED
+//@   modifies nothing
+
+//@ func (d Driver) RemovePDR(seid uint64, req *ie.IE) (err error)
+//@   requires req != nil
+//@   requires [made] RuleKey(seid, 1, uint64(val(req.PDRID()))) in CREATED
+//@   ensures [gone] DP == remove(old(DP), RuleKey(seid, 1, uint64(val(req.PDRID()))))
+//@   modifies DP
+
+//@ func (d Driver) CreateFAR(seid uint64, req *ie.IE) (err error)
+//@   requires req != nil
+//@   ensures [sup] forall k RuleKey :: k in old(DP) ==> k in DP
+//@   ensures [sub] forall k RuleKey :: k in DP ==> k in old(DP) || k == RuleKey(seid, 2, uint64(val(req.FARID())))
+//@   ensures [ok]  err == nil ==> RuleKey(seid, 2, uint64(val(req.FARID()))) in DP
+//@   ensures [created] CREATED == add(old(CREATED), RuleKey(seid, 2, uint64(val(req.FARID()))))
+//@   modifies DP, CREATED
+
+//@ func (d Driver) UpdateFAR(seid uint64, req *ie.IE) (err error)
+//@   requires req != nil
+//@   requires [made] RuleKey(seid, 2, uint64(val(req.FARID()))) in CREATED
+//@   modifies nothing
+
+//@ func (d Driver) RemoveFAR(seid uint64, req *ie.IE) (err error)
+//@   requires req != nil
+//@   requires [made] RuleKey(seid, 2, uint64(val(req.FARID()))) in CREATED
+//@   ensures [gone] DP == remove(old(DP), RuleKey(seid, 2, uint64(val(req.FARID()))))
+//@   modifies DP
+
+//@ func (d Driver) CreateQER(seid uint64, req *ie.IE) (err error)
+//@   requires req != nil
+//@   ensures [sup] forall k RuleKey :: k in old(DP) ==> k in DP
+//@   ensures [sub] forall k RuleKey :: k in DP ==> k in old(DP) || k == RuleKey(seid, 3, uint64(val(req.QERID())))
+//@   ensures [ok]  err == nil ==> RuleKey(seid, 3, uint64(val(req.QERID()))) in DP
+//@   ensures [created] CREATED == add(old(CREATED), RuleKey(seid, 3, uint64(val(req.QERID()))))
+//@   modifies DP, CREATED
+
+//@ func (d Driver) UpdateQER(seid uint64, req *ie.IE) (err error)
+//@   requires req != nil
+//@   requires [made] RuleKey(seid, 3, uint64(val(req.QERID()))) in CREATED
+//@   modifies nothing
+
+//@ func (d Driver) RemoveQER(seid uint64, req *ie.IE) (err error)
+//@   requires req != nil
+//@   requires [made] RuleKey(seid, 3, uint64(val(req.QERID()))) in CREATED
+//@   ensures [gone] DP == remove(old(DP), RuleKey(seid, 3, uint64(val(req.QERID()))))
+//@   modifies DP
+
+//@ func (d Driver) CreateURR(seid uint64, req *ie.IE) (err error)
+//@   requires req != nil
+//@   ensures [sup] forall k RuleKey :: k in old(DP) ==> k in DP
+//@   ensures [sub] forall k RuleKey :: k in DP ==> k in old(DP) || k == RuleKey(seid, 4, uint64(val(req.URRID())))
+//@   ensures [ok]  err == nil ==> RuleKey(seid, 4, uint64(val(req.URRID()))) in DP
+//@   ensures [created] CREATED == add(old(CREATED), RuleKey(seid, 4, uint64(val(req.URRID()))))
+//@   modifies DP, CREATED
+
+//@ func (d Driver) UpdateURR(seid uint64, req *ie.IE) (usars []report.USAReport, err error)
+//@   requires req != nil
+//@   requires [made] RuleKey(seid, 4, uint64(val(req.URRID()))) in CREATED
+//@   ensures [freshres] usars == nil || fresh(usars)
+//@   modifies nothing
+
+//@ func (d Driver) RemoveURR(seid uint64, req *ie.IE) (usars []report.USAReport, err error)
+//@   requires req != nil
+//@   requires [made] RuleKey(seid, 4, uint64(val(req.URRID()))) in CREATED
+//@   ensures [gone] DP == remove(old(DP), RuleKey(seid, 4, uint64(val(req.URRID()))))
+//@   ensures [freshres] usars == nil || fresh(usars)
+//@   modifies DP
+
+//@ func (d Driver) CreateBAR(seid uint64, req *ie.IE) (err error)
+//@   requires req != nil
+//@   ensures [sup] forall k RuleKey :: k in old(DP) ==> k in DP
+//@   ensures [sub] forall k RuleKey :: k in DP ==> k in old(DP) || k == RuleKey(seid, 5, uint64(val(req.BARID())))
+//@   ensures [ok]  err == nil ==> RuleKey(seid, 5, uint64(val(req.BARID()))) in DP
+//@   ensures [created] CREATED == add(old(CREATED), RuleKey(seid, 5, uint64(val(req.BARID()))))
+//@   modifies DP, CREATED
+
+//@ func (d Driver) UpdateBAR(seid uint64, req *ie.IE) (err error)
+//@   requires req != nil
+//@   requires [made] RuleKey(seid, 5, uint64(val(req.BARID()))) in CREATED
+//@   modifies nothing
+
+//@ func (d Driver) RemoveBAR(seid uint64, req *ie.IE) (err error)
+//@   requires req != nil
+//@   requires [made] RuleKey(seid, 5, uint64(val(req.BARID()))) in CREATED
+//@   ensures [gone] DP == remove(old(DP), RuleKey(seid, 5, uint64(val(req.BARID()))))
+//@   modifies DP
+
+//@ func (d Driver) QueryURR(seid uint64, urrid uint32) (usars []report.USAReport, err error)
+//@   requires [made] RuleKey(seid, 4, uint64(urrid)) in CREATED
+//@   ensures [freshres] usars == nil || fresh(usars)
+//@   modifies nothing
+
